@@ -2,7 +2,7 @@
 From V.lib Require Import Base.
 From V.c13 Require Import C13Spec C13Model.
 From V.c15 Require Import C15Model C15Spec C15BitProofs C15AvcSpsProofs C15AvcVuiProofs C15AvcPpsProofs C15AvcSliceProofs
-  C15Examples.
+  C15AvcDimsProofs C15Examples.
 
 (* AVC SPS: for every field assignment accepted by sps_valid (profiles with and without the
    chroma / bit-depth / scaling-list block, scaling lists, poc types 0-2, frame/field, cropping for
@@ -98,3 +98,36 @@ Proof.
   repeat split; try (vm_compute; reflexivity). vm_compute. discriminate.
 Qed.
 Print Assumptions C15_avc_slice_fmo_refuted.
+
+(* Width / Height of every valid SPS by the standard's cropping formula (7.4.2.1.1), written out:
+   PicWidthInMbs * 16 - CropUnitX * (left + right), (2 - frame_mbs_only_flag) * PicHeightInMapUnits * 16
+   - CropUnitY * (top + bottom), CropUnitX / CropUnitY from ChromaArrayType (chroma_format_idc,
+   separate_colour_plane_flag; 4:2:0 inferred when the profile has no chroma block), SubWidthC / SubHeightC
+   and frame_mbs_only_flag.  Stated with + so that no truncated subtraction is involved. *)
+Theorem C15_avc_dims : forall v beyond s,
+  sps_valid v = true -> parse_sps_br beyond (nalu_sps v) = Ok s ->
+  let high := existsb (N.eqb (profile_idc v)) [100; 110; 122; 244; 44; 83; 86; 118; 128; 138; 139; 134; 135] in
+  let chroma := if high then chroma_format_idc v else 1 in
+  let separate := high && (chroma =? 3) && separate_colour_plane_flag v in
+  let chroma_array_type := if separate then 0 else chroma in
+  let sub_width_c := if chroma =? 3 then 1 else 2 in
+  let sub_height_c := if chroma =? 1 then 2 else 1 in
+  let fmo := if frame_mbs_only_flag v then 1 else 0 in
+  let crop_unit_x := if chroma_array_type =? 0 then 1 else sub_width_c in
+  let crop_unit_y := if chroma_array_type =? 0 then 2 - fmo else sub_height_c * (2 - fmo) in
+  let crop x := if frame_cropping_flag v then x else 0 in
+  let pic_width_in_mbs := pic_width_in_mbs_minus1 v + 1 in
+  let pic_height_in_map_units := pic_height_in_map_units_minus1 v + 1 in
+  sps_width s + crop_unit_x * (crop (frame_crop_left_offset v) + crop (frame_crop_right_offset v))
+    = pic_width_in_mbs * 16
+  /\ sps_height s + crop_unit_y * (crop (frame_crop_top_offset v) + crop (frame_crop_bottom_offset v))
+    = (2 - fmo) * pic_height_in_map_units * 16
+  /\ 0 < sps_width s /\ 0 < sps_height s.
+Proof. exact avc_dims. Qed.
+Print Assumptions C15_avc_dims.
+(* ex_sps: 4:2:2 interlaced, 120 x 34 map units, crop 1,2,3,1: 1920 - 2*3 = 1914, 1088 - 2*4 = 1080 *)
+Example C15_avc_dims_hyps :
+  sps_valid ex_sps = true
+  /\ option_map (fun s => (sps_width s, sps_height s))
+       (match parse_sps_br false (nalu_sps ex_sps) with Ok s => Some s | _ => None end) = Some (1914, 1080).
+Proof. vm_compute. repeat split. Qed.
